@@ -107,8 +107,12 @@ def chainOracleRaw (curves : List (Pt3 Float × Pt3 Float × Pt3 Float × Pt3 Fl
       let tin := Pt3.sub e c2; let tout := Pt3.sub c1' s'
       let sc := (F!(1.0) + mag3 tin) * (F!(1.0) + mag3 tout)
       let len := lens.getD j F!(1.0)
-      if mag3 tin > F!(1e-9) && len != F!(0.0) then
-        if !(mag3 (Pt3.cross tin tout) ≤ F!(1e-9) * sc && (Pt3.dot tin tout) * len ≥ -F!(1e-9) * sc) then
+      -- both tangents are differences of stored points: each carries an absolute error of about one
+      -- ulp of the points' magnitude, which matters when handles are short and coordinates large
+      let canc := F!(1e-15) * (mag3 tin * (mag3 s' + mag3 c1') + mag3 tout * (mag3 e + mag3 c2))
+      let tol := F!(1e-9) * sc + canc
+      if mag3 tin > F!(1e-9) + F!(1e-12) * (mag3 e + mag3 c2) && len != F!(0.0) then
+        if !(mag3 (Pt3.cross tin tout) ≤ tol && (Pt3.dot tin tout) * len ≥ -tol * (F!(1.0) + len.abs)) then
           fails := fails ++ [s!"tangent_not_continuous_at_joint:{j}"]
   -- points: passes through every knot in order, each joint once, closed chain does not repeat its first point
   let total := curves.foldl (fun a c => a + c.2.2.2.2) 0
